@@ -75,6 +75,15 @@ func c05Enumerate(tier string, yield func(any)) {
 			}
 		}
 	}
+	// a first attempt that fails at signing (a signature algorithm of the other family), then the entity is configured
+	// again with another key algorithm on the same database object: the key generated is of the algorithm configured last
+	for _, a := range []string{"P-256", "P-384", "brainpoolP256r1", "RSA-1024"} {
+		for _, b := range []string{"P-224", "P-384", "brainpoolP256t1", "RSA-1024"} {
+			if a != b {
+				yield(&c05Case{Role: "retry", KeyAlg: a, Second: b})
+			}
+		}
+	}
 	keyAlgs := append([]string{""}, refx509.KeyAlgNames...)
 	sigAlgs := append([]string{""}, refx509.SigAlgNames...)
 	genOK := func(role, k, s, issuer string) bool {
@@ -295,6 +304,43 @@ func c05Reconfig(x *engine.Ctx, c *c05Case) {
 		x.Outcome("reconfigured")
 		return
 	}
+	keyIdx := func(name string) cert.KeyAlgorithm {
+		for i, n := range refx509.KeyAlgNames {
+			if n == name {
+				return cert.KeyAlgorithm(i)
+			}
+		}
+		return 0
+	}
+	if c.Role == "retry" {
+		// self-signed entity: a signature algorithm of the other key family cannot be used with its own key
+		bad := *cfg
+		bad.KeyAlgorithm = keyIdx(c.KeyAlg)
+		bad.SignatureAlgorithm = sigIdx(map[string]string{"EC": "RSAwithSHA256", "RSA": "ECDSAwithSHA256"}[c05Family(c.KeyAlg)])
+		var err1, err2 error
+		guard(func() { _, err1 = db.AddAndSign(fsdb, bad, true) })
+		x.Transition(1)
+		if panicked != "" {
+			x.Violation("C05/retry/panic", panicked)
+			return
+		}
+		if err1 == nil {
+			x.Violation("C05/retry/mismatched-algorithm-accepted", fmt.Sprintf("key %s signed with %v", c.KeyAlg, bad.SignatureAlgorithm))
+			return
+		}
+		good := *cfg
+		good.KeyAlgorithm = keyIdx(c.Second)
+		good.SignatureAlgorithm = sigIdx(refcfg.DefaultSigAlg(c.Second))
+		guard(func() { _, err2 = db.AddAndSign(fsdb, good, true) })
+		x.Transition(1)
+		if panicked != "" || err2 != nil {
+			x.Violation("C05/retry/second-attempt-failed", fmt.Sprintf("%v %s", err2, panicked))
+			return
+		}
+		check(2, c.Second, refcfg.DefaultSigAlg(c.Second))
+		x.Outcome("retried")
+		return
+	}
 	// replan
 	var perr error
 	guard(func() { _, perr = db.PlanBulkUpdate(fsdb, db.UpdateMissing) })
@@ -341,7 +387,7 @@ func c05Exec(x *engine.Ctx, cc any) {
 		c05Resign(x, c)
 		return
 	}
-	if c.Role == "reconfig" || c.Role == "replan" {
+	if c.Role == "reconfig" || c.Role == "replan" || c.Role == "retry" {
 		c05Reconfig(x, c)
 		return
 	}
@@ -435,7 +481,7 @@ func init() {
 	register(&engine.Check{
 		ID:          "C05",
 		Level:       "exploration",
-		Rule:        "15 keyAlgorithm values (14 names + omitted) x 9 signatureAlgorithm values (8 + omitted) for self-signed roots and for subordinates under an issuer of each of the 14 key types (issuer key from fixtures); gopki generates the entity's key except for the slow RSA sizes where a fixture key is imported (RSA-4096 generated once per role in quick, RSA-8192 only in thorough). Oracle: PKCS#8 block decodes to exactly that modulus length / curve, SPKI names it and carries the private key's public key, signature algorithm OID = configured or SHA-256 with the entity's own key family. non-trivial = distinct fitting combination that produced a certificate; through the generator API one certificate body signed twice (every ordered pair of the 8 signature algorithms on a P-256, a brainpoolP384r1 and an RSA-2048 key, a first attempt with an algorithm of the other family failing): every certificate names, inside and outside, the algorithm it was asked for and verifies; one certificate context keyed twice through the cert package (30 ordered pairs over six key types): the SubjectPublicKeyInfo describes the key the certificate carries; through the library with one database object: an entity that names a profile is signed, configured again with another signature algorithm of its family and signed with overwrite (all ordered pairs on an EC and an RSA key), and an entity is planned, configured again with another key algorithm (all ordered pairs over six) and then planned and generated - certificate and key are those of the configuration in force",
+		Rule:        "15 keyAlgorithm values (14 names + omitted) x 9 signatureAlgorithm values (8 + omitted) for self-signed roots and for subordinates under an issuer of each of the 14 key types (issuer key from fixtures); gopki generates the entity's key except for the slow RSA sizes where a fixture key is imported (RSA-4096 generated once per role in quick, RSA-8192 only in thorough). Oracle: PKCS#8 block decodes to exactly that modulus length / curve, SPKI names it and carries the private key's public key, signature algorithm OID = configured or SHA-256 with the entity's own key family. non-trivial = distinct fitting combination that produced a certificate; through the generator API one certificate body signed twice (every ordered pair of the 8 signature algorithms on a P-256, a brainpoolP384r1 and an RSA-2048 key, a first attempt with an algorithm of the other family failing): every certificate names, inside and outside, the algorithm it was asked for and verifies; one certificate context keyed twice through the cert package (30 ordered pairs over six key types): the SubjectPublicKeyInfo describes the key the certificate carries; through the library with one database object: an entity that names a profile is signed, configured again with another signature algorithm of its family and signed with overwrite (all ordered pairs on an EC and an RSA key), and an entity is planned, configured again with another key algorithm (all ordered pairs over six) and then planned and generated ; and an entity whose first signing fails (signature algorithm of the other family) is configured again with another key algorithm (12 ordered pairs) - certificate and key are those of the configuration in force",
 		Bound:       map[string]string{"grid": "15 x 9 x (1 + 14 issuers)"},
 		Assumptions: []string{"combinations whose signature algorithm does not fit the signing key must fail (C01) and are only counted here"},
 		Budget:      budgets(quickBudget, thoroughBudget),
